@@ -292,6 +292,25 @@ def rule_r6(chk, facts, P):
                '%s writes its message directly (line %s) instead of through the emitter' % (hn, direct_out))
 
 
+def rule_r7(chk, facts, P):
+    chk.rule('C02-R7', '-Werror is decided inside the diagnostic emitter: in the function that increments WarnCount, a test '
+             'of TreatWarningsAsErrors lies on every path to that increment, so that no caller of the emitter (the '
+             'WARNING statement calls it directly) can have a warning counted as a warning under -Werror', min_instances=1)
+    n = 0
+    for f in P.all_funcs():
+        for b, i, ln, m in f.nodes():
+            if (is_incdec(m) or (is_assign(m) and m[1] == '+=')) and strip(m[2]) == ('g', 'WarnCount'):
+                n += 1
+                ok, w = f.guarded(b, i, lambda l: l is not None and l[0] in ('T', 'F') and
+                                  mentions(l[1], lambda x: var_is(x, {'TreatWarningsAsErrors'})))
+                chk.ob('C02-R7', '%s:%s:WarnCount++' % (f.unit.name, f.name), ok, f.loc(ln),
+                       'promotion tested in the emitter' if ok else
+                       'a warning is counted as a warning on a path that never looked at TreatWarningsAsErrors (%s): callers '
+                       'that do not promote themselves (WARNING statement) escape -Werror' % ' '.join(w[-4:]))
+    if not n:
+        raise AnalysisBroken('no increment of WarnCount found')
+
+
 def run(chk, facts, info):
     P = facts.program('asl')
     rule_r1(chk, facts, P)
@@ -300,6 +319,7 @@ def run(chk, facts, info):
     rule_r4(chk, facts, P)
     rule_r5(chk, facts)
     rule_r6(chk, facts, P)
+    rule_r7(chk, facts, P)
     chk.note('Decided: counter discipline, counter width, single predicate for output removal / error flag / exit '
              'status, documented exit codes, fatal clean-up, routing of ERROR/WARNING/FATAL. Not decided: message text, '
              '-E routing.')
